@@ -322,6 +322,10 @@ func (e *esdtNFTMultiTransfer) transferOneTokenOnSenderShard(
 	if err != nil {
 		return nil, err
 	}
+	err = checkTokenDataMatchesNonce(esdtData, nonce)
+	if err != nil {
+		return nil, err
+	}
 
 	if esdtData.Value.Cmp(quantityToTransfer) < 0 {
 		return nil, ErrInvalidNFTQuantity
